@@ -3,7 +3,8 @@
 (* C14 / C15, roles A and B.                                                *)
 (*                                                                          *)
 (* Role B: every initial state is one input: a set of sessions (1-3         *)
-(* neighbors out of a catalogue of 10: IPv4 / IPv6 / unnumbered, eBGP /     *)
+(* neighbors out of a catalogue of 11: IPv4 / IPv6 / unnumbered (two that   *)
+(* differ only in the interface name), eBGP /                               *)
 (* iBGP / dynamic ASN, two routers = default VRF and VRF red, the same peer *)
 (* address in both VRFs, DisableMP, password / secret reference / both),    *)
 (* each with 0-3 advertisements out of a catalogue of 10 (the same prefix   *)
@@ -68,6 +69,8 @@ Nbr(k, vrf, myasn, rid, afam, addr, iface, asn, dyn, port, hold, ka, connect, pw
    dyn |-> dyn, port |-> port, hold |-> hold, keepalive |-> ka, connect |-> connect, pw |-> pw, pwref |-> ref, src |-> src,
    multihop |-> mh, bfd |-> bfd, gr |-> gr, disablemp |-> dmp]
 Ref(n) == [name |-> n, ns |-> "metallb-system"]
+RefName(n) == [name |-> n, ns |-> ""]                 \* the namespace of a reference is optional
+RefNs == [name |-> "", ns |-> "metallb-system"]       \* a reference that only has a namespace
 NbrCat ==
   << Nbr("n1", "", "64512", "10.1.1.254", 4, "10.2.2.254", "", "64600", "", "179", "90", "30", "", "pw-n1", NoRef,
          "10.1.1.254", TRUE, "", FALSE, FALSE),
@@ -79,17 +82,26 @@ NbrCat ==
          "", FALSE, "", FALSE, FALSE),
      Nbr("n5", "", "64512", "10.1.1.254", 0, "", "eth1", "", "external", "179", "", "", "", "", NoRef,
          "", FALSE, "bfdprof", FALSE, FALSE),
-     Nbr("n6", "red", "64513", "", 4, "10.2.2.254", "", "64600", "", "179", "", "", "", "", Ref("sec-n6"),
+     Nbr("n6", "red", "64513", "", 4, "10.2.2.254", "", "64600", "", "179", "", "", "", "", RefName("sec-n6"),
          "", FALSE, "", FALSE, FALSE),
      Nbr("n7", "red", "64513", "", 6, "fc00:f853:ccd:e793::2", "", "64513", "", "179", "180", "60", "5", "pw-n7", NoRef,
          "", FALSE, "", TRUE, TRUE),
      Nbr("n8", "", "64512", "10.1.1.254", 4, "10.2.2.253", "", "64601", "", "179", "", "", "", "", NoRef,
          "", TRUE, "", FALSE, TRUE),
-     Nbr("n9", "red", "64513", "", 0, "", "eth1", "64700", "", "179", "", "", "", "", Ref("sec-n9"),
+     Nbr("n9", "red", "64513", "", 0, "", "eth1", "64700", "", "179", "", "", "", "", RefNs,
          "", FALSE, "", FALSE, FALSE),
+     (* differs from n5 ONLY in the interface name *)
+     Nbr("n11", "", "64512", "10.1.1.254", 0, "", "eth2", "", "external", "179", "", "", "", "", NoRef,
+         "", FALSE, "bfdprof", FALSE, FALSE),
      Nbr("n10", "", "64512", "10.1.1.254", 4, "10.2.2.252", "", "64602", "", "179", "", "", "", "pw-n10", Ref("sec-n10"),
+         "", FALSE, "", FALSE, FALSE),
+     (* a plain password together with a reference that has only a name / only a namespace *)
+     Nbr("n12", "", "64512", "10.1.1.254", 4, "10.2.2.251", "", "64603", "", "179", "", "", "", "pw-n12", RefName("sec-n12"),
+         "", FALSE, "", FALSE, FALSE),
+     Nbr("n13", "", "64512", "10.1.1.254", 6, "fc00:f853:ccd:e793::4", "", "64604", "", "179", "", "", "", "pw-n13", RefNs,
          "", FALSE, "", FALSE, FALSE) >>
 NNbr == Len(NbrCat)
+NGhost == 10        \* the extra session of the history order is one of the first 10 (never one the FRR-K8s manager refuses)
 
 (* a DisableMP session is only asked for prefixes of its own family (assumption of the check) *)
 AllowedAdvs(n, A) == IF NbrCat[n].disablemp THEN {a \in A : AdvCat[a].p.fam = NbrCat[n].afam} ELSE A
@@ -110,8 +122,8 @@ Sess(n, A, pre, ghost) ==
 
 ----------------------------------------------------------------------------
 (* role B: inputs.  inp = [bucket, ns |-> sequence of catalogue indices (increasing), as |-> their advertisement sets] *)
-Sizes == IF Tier = "thorough" THEN [pair |-> 150, triple |-> 200]
-         ELSE IF Tier = "quick" THEN [pair |-> 24, triple |-> 8]
+Sizes == IF Tier = "thorough" THEN [pair |-> 120, triple |-> 120]
+         ELSE IF Tier = "quick" THEN [pair |-> 18, triple |-> 6]
          ELSE [pair |-> 1, triple |-> 1]
 
 PairsOf == {t \in (1..NNbr) \X (1..NNbr) : t[1] < t[2]}
@@ -135,19 +147,29 @@ BucketInputs(t) ==
 HAdvCat == AdvCat \o <<Adv(P4, "200", <<>>, <<>>), Adv(P4, "100", [i \in 1..64 |-> "65001:" \o ToString(i)], <<>>)>>
 IdxLp2 == NAdv + 1
 IdxBad == NAdv + 2
-HPre == <<1, 2, 4, 5, 6, 7, IdxLp2>>          \* everything a history ever mentions, for "every other prefix"
+HPre == <<1, 2, 3, 4, 5, 6, 7, IdxLp2>>       \* everything a history ever mentions, for "every other prefix"
 HL1 == <<1, 4>>
 HL2 == <<5, 2>>
 HL3 == <<7>>
+(* family 2: consecutive ACCEPTED Sets on one session whose lists are nearly equal.  HB0 = p{c1}, p{c2,L}, q        *)
+HB0 == <<2, 3, 6>>
+HB1 == <<3, 3, 6>>              \* the attributes of ONE occurrence of the repeated prefix changed
+HB2 == <<3, 2, 6>>              \* the same multiset in another order
+HB3 == <<2, 6>>                 \* one occurrence dropped
+HB4 == <<2, 3, IdxLp2>>         \* the local preference of one advertisement changed
 HOp(op, s, advs, refuse) == [op |-> op, s |-> s, advs |-> advs, refuse |-> refuse, look |-> 0]
-HPrefix == <<HOp("new", 1, <<>>, ""), HOp("set", 1, HL1, ""), HOp("new", 2, <<>>, ""), HOp("set", 2, HL3, "")>>
-HAlphabet ==
-  << HOp("set", 1, HL2, ""), HOp("set", 1, <<>>, ""), HOp("set", 2, HL1, ""),
-     HOp("set", 1, <<6, IdxBad>>, "63"), HOp("set", 1, <<7, 6, IdxLp2>>, "lp"), HOp("set", 2, <<6, IdxBad>>, "63"),
-     HOp("syncbfd", 1, <<>>, ""), HOp("syncextra", 1, <<>>, ""), HOp("close", 1, <<>>, ""), HOp("close", 2, <<>>, ""),
-     HOp("new", 3, <<>>, "") >>
+HPrefixOf(fam) ==
+  <<HOp("new", 1, <<>>, ""), HOp("set", 1, IF fam = 1 THEN HL1 ELSE HB0, ""), HOp("new", 2, <<>>, ""), HOp("set", 2, HL3, "")>>
+HAlphabetOf(fam) ==
+  IF fam = 1
+  THEN << HOp("set", 1, HL2, ""), HOp("set", 1, <<>>, ""), HOp("set", 2, HL1, ""),
+          HOp("set", 1, <<6, IdxBad>>, "63"), HOp("set", 1, <<7, 6, IdxLp2>>, "lp"), HOp("set", 2, <<6, IdxBad>>, "63"),
+          HOp("syncbfd", 1, <<>>, ""), HOp("syncextra", 1, <<>>, ""), HOp("close", 1, <<>>, ""), HOp("close", 2, <<>>, ""),
+          HOp("new", 3, <<>>, "") >>
+  ELSE << HOp("set", 1, HB0, ""), HOp("set", 1, HB1, ""), HOp("set", 1, HB2, ""), HOp("set", 1, HB3, ""), HOp("set", 1, HB4, ""),
+          HOp("set", 2, HB1, ""), HOp("set", 1, <<6, IdxBad>>, "63"), HOp("syncbfd", 1, <<>>, ""), HOp("close", 2, <<>>, "") >>
 HDepth == 3
-HVariants == <<(<<1, 2, 5>>), (<<3, 6, 4>>), (<<9, 1, 3>>)>>
+HVariants == <<(<<1, 2, 5>>), (<<3, 6, 4>>), (<<9, 1, 3>>), (<<5, 10, 1>>)>>     \* the last: two interface sessions
 HState0 == [j \in 1..3 |-> [live |-> FALSE, advs |-> <<>>]]
 HEnabled(st, a) ==
   IF a.op \in {"set", "close"} THEN st[a.s].live ELSE IF a.op = "new" THEN ~st[a.s].live ELSE TRUE
@@ -163,18 +185,20 @@ HStates(ops, i, st) ==
 RECURSIVE HAllEnabled(_, _, _)
 HAllEnabled(ops, i, st) ==
   i > Len(ops) \/ (HEnabled(st, ops[i]) /\ HAllEnabled(ops, i + 1, HApply(st, ops[i])))
-HOpsOf(f) == HPrefix \o [i \in 1..Len(f) |-> HAlphabet[f[i]]]
-HValid(f) == HAllEnabled(HOpsOf(f), 1, HState0)
+HOpsOf(fam, f) == HPrefixOf(fam) \o [i \in 1..Len(f) |-> HAlphabetOf(fam)[f[i]]]
+HValid(fam, f) == HAllEnabled(HOpsOf(fam, f), 1, HState0)
 HBuckets ==
-  LET vs == IF Tier = "thorough" THEN {1, 2, 3} ELSE RandomSubset(1, {1, 2, 3}) IN
-  {[bucket |-> TRUE, kind |-> "hist", ns |-> HVariants[v], as |-> <<a>>,
-    pool |-> {f \in [1..HDepth -> 1..Len(HAlphabet)] : f[1] = a /\ HValid(f)}] : v \in vs, a \in 1..Len(HAlphabet)}
+  LET all == 1..Len(HVariants)
+      vs == IF Tier = "thorough" THEN all ELSE IF Tier = "quick" THEN RandomSubset(2, all) ELSE RandomSubset(1, all)
+  IN UNION {{[bucket |-> TRUE, kind |-> "hist", fam |-> fam, ns |-> HVariants[v], as |-> <<a>>,
+              pool |-> {f \in [1..HDepth -> 1..Len(HAlphabetOf(fam))] : f[1] = a /\ HValid(fam, f)}] :
+               v \in vs, a \in 1..Len(HAlphabetOf(fam))} : fam \in {1, 2}}
 
 Init == inp \in {[bucket |-> TRUE, kind |-> "set", ns |-> t, as |-> <<>>, pool |-> BucketInputs(t)] : t \in Buckets} \cup HBuckets
 Next ==
   /\ inp.bucket
   /\ inp' \in IF inp.kind = "set" THEN {[bucket |-> FALSE, kind |-> "set", ns |-> i.ns, as |-> i.as, pool |-> {}] : i \in inp.pool}
-              ELSE {[bucket |-> FALSE, kind |-> "hist", ns |-> inp.ns, as |-> f, pool |-> {}] : f \in inp.pool}
+              ELSE {[bucket |-> FALSE, kind |-> "hist", fam |-> inp.fam, ns |-> inp.ns, as |-> f, pool |-> {}] : f \in inp.pool}
 
 (* a history input *)
 HSess(n) ==
@@ -184,9 +208,9 @@ HSess(n) ==
    pw |-> c.pw, pwref |-> c.pwref, src |-> c.src, multihop |-> c.multihop, bfd |-> c.bfd, gr |-> c.gr,
    disablemp |-> c.disablemp, ghost |-> FALSE, advs |-> HAdvCat, pre |-> <<>>]
 HSessions == [j \in 1..3 |-> HSess(inp.ns[j])]
-HOps == LET ops == HOpsOf(inp.as) IN [i \in DOMAIN ops |-> [ops[i] EXCEPT !.look = i]]
+HOps == LET ops == HOpsOf(inp.fam, inp.as) IN [i \in DOMAIN ops |-> [ops[i] EXCEPT !.look = i]]
 HViews ==
-  LET q == HStates(HOpsOf(inp.as), 1, HState0) IN
+  LET q == HStates(HOpsOf(inp.fam, inp.as), 1, HState0) IN
   [i \in DOMAIN q |-> [j \in 1..3 |-> [live |-> q[i][j].live, advs |-> q[i][j].advs, pre |-> HPre]]]
 (* the sessions the judge is shown for a view *)
 HViewSessions(view) ==
@@ -196,7 +220,7 @@ HViewSessions(view) ==
 
 K == Len(inp.ns)
 (* the history variant: a session that does not belong to the set is created, advertises, and is closed again *)
-GhostN == CHOOSE g \in 1..(NNbr - 1) : g \notin Range(inp.ns) /\ \A o \in 1..(NNbr - 1) : o \notin Range(inp.ns) => g <= o
+GhostN == CHOOSE g \in 1..NGhost : g \notin Range(inp.ns) /\ \A o \in 1..NGhost : o \notin Range(inp.ns) => g <= o
 Sessions ==
   [i \in 1..(K + 1) |->
      IF i <= K THEN Sess(inp.ns[i], inp.as[i], IF i = 1 THEN {2, 5, 9, 10} ELSE {}, FALSE)
@@ -224,7 +248,10 @@ Orders ==
 (* implementation x secret handling                                                                        *)
 PwCases ==
   {[pw |-> c[1], secretpw |-> c[2], ref |-> c[3], impl |-> im, handling |-> h] :
-     c \in {<<"", "", NoRef>>, <<"plain-pw", "", NoRef>>, <<"", "from-secret", Ref("peer-secret")>>},
+     c \in {<<"", "", NoRef>>, <<"plain-pw", "", NoRef>>, <<"", "from-secret", Ref("peer-secret")>>,
+            <<"", "from-secret", RefName("peer-secret")>>,       \* reference without namespace
+            <<"", "", RefNs>>,                                   \* reference with a namespace only: nothing to resolve
+            <<"plain-pw", "", RefNs>>},                          \* ... next to a plain password (the loader lets it through)
      im \in {"native", "frr", "frr-k8s"}, h \in {"passthrough", "convert"}}
 
 Emit ==
@@ -329,7 +356,7 @@ GenCRNbr(s) ==
       cs == AnySeq(UNION {r.comms : r \in R})
       lcs == AnySeq(UNION {r.lcomms : r \in R})
   IN [address |-> s.addr, iface |-> s.iface, asn |-> IF s.dyn # "" THEN "0" ELSE s.asn, dyn |-> s.dyn, srcaddr |-> s.src,
-      port |-> s.port, password |-> IF s.pwref.name # "" THEN "" ELSE s.pw, secret |-> s.pwref, hold |-> s.hold,
+      port |-> s.port, password |-> IF HasRef(s.pwref) THEN "" ELSE s.pw, secret |-> s.pwref, hold |-> s.hold,
       keepalive |-> s.keepalive, connect |-> s.connect, multihop |-> s.multihop, bfd |-> s.bfd, gr |-> s.gr,
       disablemp |-> s.disablemp, allowedMode |-> "", allowed |-> WithCodes(SortP(ReqPrefixes(s))),
       withLocalPref |-> [j \in DOMAIN lps |-> [lp |-> lps[j], prefixes |-> SortP({r.prefix : r \in {r \in R : r.lp = lps[j]}})]],
